@@ -266,6 +266,10 @@ inline bool fork_path()
         S->truncated++;
         return false;
     }
+    // the exploration is over (deadline, violation limit): paths made of short runs between forks (schedule exploration) never
+    // reach the instruction-count based budget check, so the fork itself ends them
+    if (S->stop.load()) finish(K_TRUNCATED, "stopped");
+    if (deadline > 0 && now() > deadline) finish(K_TRUNCATED, "deadline");
     S->started++;
     S->forks++;
     fflush(stdout);
